@@ -111,6 +111,12 @@ def handle (j : Json) : R Json := do
       match decodePrim ty t with
       | .error e => pure (jErr e)
       | .ok v => pure (jOk [("v", jVal v)])
+  | "a2o" =>     -- Tag.app_to_object
+      let t ← tagOfJson (← fld j "tag")
+      match appToObject t with
+      | .error e => pure (jErr e)
+      | .ok none => pure (jOk [("ty", Json.null)])
+      | .ok (some v) => pure (jOk [("ty", Json.num (tyOf v).appTag), ("v", jVal v)])
   | "a2c" =>     -- Tag.app_to_context
       let t ← tagOfJson (← fld j "tag")
       match appToContext (← fldNat j "c") t with
